@@ -110,6 +110,10 @@ def fault_job(arg):
     delivered = any(e.get("delivered") and e.get("mode") == "fault" for e in evs)
     ctx = {"argv": argv, "rule": rule}
     v = judge(r, baseline, ctx)
+    if delivered and r.rc == 0 and not r.timed_out:
+        # "If any git subprocess fails or is killed at any point of its output ... it terminates with a non-zero status":
+        # every planned termination is abnormal (exit 2/128 or a signal; never the documented "not set" status 1)
+        v.append(("exit-0-although-a-git-subprocess-failed", dict(ctx, stderr=r.err[-200:])))
     panic = r.rc == 2 and b"goroutine " in r.err and b"panic" in r.err
     return {"viol": v, "delivered": delivered, "rc": r.rc, "panic": panic, "rule": rule, "stderr_head": r.err[:160]}
 
@@ -169,7 +173,7 @@ def git_fault_campaign(chk, b, rng, tier, scratch):
                 jobs.append((sz, shimdir, gitdir, argv, {"sig": e["sig"], "ord": e["ord"], "mode": "fault", "before_exec": True,
                                                          "pre_ms": 300, "term": rng.choice(TERMS)}, baseline, d, jid))
                 jid += 1
-    res = R.pmap(fault_job, jobs, chunksize=4)
+    res = R.pmap(fault_job, jobs, chunksize=4, chk=chk)
     delivered = 0
     panics = 0
     points = set()
@@ -243,7 +247,8 @@ def other_faults(chk, b, rng, tier, small_m, small, sz, d):
     cases = []
     sh = os.path.join(d, "shallow")
     shutil.copytree(small, sh)
-    c0 = small_m.commits[-1].oid if small_m.commits else "0" * 40
+    rc0 = [o for o in reach.values() if o.kind == "commit"]
+    c0 = rc0[0].oid if rc0 else "0" * 40
     with open(os.path.join(sh, "shallow"), "w") as f:
         f.write(c0 + "\n")
     cases.append(("shallow-file", sh, argv, {}))
@@ -269,8 +274,9 @@ def other_faults(chk, b, rng, tier, small_m, small, sz, d):
     ignored_by_git = [("corrupt-ref-ignored-by-git", cr, argv, {})]
     co = os.path.join(d, "corruptobj")
     shutil.copytree(small, co)
-    if small_m.commits:
-        oid = small_m.commits[-1].oid
+    rc_ = [o for o in reach.values() if o.kind == "commit"]
+    if rc_:
+        oid = rc_[0].oid
         with open(os.path.join(co, "objects", oid[:2], oid[2:]), "wb") as f:
             f.write(b"this is not zlib")
         cases.append(("corrupt-object", co, argv, {}))
